@@ -327,6 +327,20 @@ func (w *World) orderDependentEffects(ml *mapLoop) []string {
 				}
 			}
 		case *ast.AssignStmt:
+			// obj.field = append(obj.field, …): collected into a field in iteration order
+			for i, lhs := range x.Lhs {
+				sel, isSel := lhs.(*ast.SelectorExpr)
+				if !isSel || i >= len(x.Rhs) {
+					continue
+				}
+				if c, ok := ast.Unparen(x.Rhs[i]).(*ast.CallExpr); ok {
+					if id, ok := c.Fun.(*ast.Ident); ok && id.Name == "append" && len(c.Args) > 0 && types.ExprString(c.Args[0]) == types.ExprString(sel) {
+						if !declaredIn(identObj(w, sel.X), ml.body) {
+							eff = append(eff, fmt.Sprintf("appends to the field %s in iteration order (%s)", types.ExprString(sel), w.pos(x)))
+						}
+					}
+				}
+			}
 			for i, lhs := range x.Lhs {
 				// dst[computedKey] = v where the key is the result of evaluating a template
 				// expression: two entries may compute the same key, then iteration order decides
@@ -485,7 +499,16 @@ func checkC03(w *World, r *Report) {
 	r.RuleText = "obligation = one map-ordered loop (or one nondeterminism source); non-trivial = loops whose body had to be classified (all)"
 	r.Trusted = []string{"sort.* / slices.Sort* produce a key-determined order", "call-graph over-approximation for 'reachable from render roots'"}
 
-	reach := w.renderOnlyReachable()
+	// render paths, plus everything the parser can reach: an order that is fixed while the tree
+	// is built (and then frozen into the cached template) makes the output differ between two
+	// parses of the same source
+	reach := map[*ssa.Function]bool{}
+	for f := range w.renderOnlyReachable() {
+		reach[f] = true
+	}
+	for f := range w.parseReachable() {
+		reach[f] = true
+	}
 	nLoops := 0
 	for _, fd := range w.sortedDecls() {
 		obj := w.Info.Defs[fd.Name].(*types.Func)
